@@ -223,11 +223,19 @@ func lineText(b bo.Box, sb *strings.Builder) {
 	}
 }
 
-func walkLines(b bo.Box, para, page int, out *[]lineObs) {
+// a box generated for paragraph element t<Para> on a page (one per fragment)
+type fragObs struct {
+	Para, Page int
+}
+
+func walkLines(b bo.Box, para, page int, out *[]lineObs, frags *[]fragObs) {
 	if _, isInline := b.(*bo.InlineBox); !isInline {
 		if id := elemID(b); strings.HasPrefix(id, "t") && b.Box().PseudoType == "" {
 			var k int
 			if _, err := fmt.Sscanf(id[1:], "%d", &k); err == nil {
+				if k != para { // the principal box of the element (anonymous boxes inside it carry the same element)
+					*frags = append(*frags, fragObs{Para: k, Page: page})
+				}
 				para = k
 			}
 		}
@@ -238,7 +246,7 @@ func walkLines(b bo.Box, para, page int, out *[]lineObs) {
 		*out = append(*out, lineObs{Para: para, Page: page, Text: sb.String()})
 	}
 	for _, c := range b.Box().Children {
-		walkLines(c, para, page, out)
+		walkLines(c, para, page, out, frags)
 	}
 }
 
@@ -320,20 +328,23 @@ func textDocCases(d *pagedoc.TextDoc, stream string) []vlib.Case {
 		return []vlib.Case{{Kind: "text-crash", Coq: "COrder 0 []", Tags: append(tags, "status="+out.Status),
 			Desc: map[string]interface{}{"html": html, "status": out.Status, "site": out.Site, "msg": out.Msg}}}
 	}
+	d.Index()
 	var lines []lineObs
+	var frags []fragObs
 	for i, pg := range doc.Pages {
 		pb := document.VerifC02PageBox(pg)
 		for _, c := range pb.Children {
 			if _, isM := c.(*bo.MarginBox); isM {
 				continue
 			}
-			walkLines(c, -1, i, &lines)
+			walkLines(c, -1, i, &lines, &frags)
 		}
 	}
 	var cases []vlib.Case
-	// per paragraph
+	// per paragraph: the occurrences of its text (one, or one per page for repeated cells)
+	occ := map[int][][]string{}
 	for _, p := range d.Paras {
-		var obs [][]string // occurrences (one, or one per page for repeated cells)
+		var obs [][]string
 		var cur []string
 		lastPage := -1
 		for _, l := range lines {
@@ -347,8 +358,11 @@ func textDocCases(d *pagedoc.TextDoc, stream string) []vlib.Case {
 			cur = append(cur, l.Text)
 			lastPage = l.Page
 		}
-		obs = append(obs, cur)
-		for k, o := range obs {
+		occ[p.ID] = append(obs, cur)
+	}
+	st := newStructure(d, occ, lines, frags, len(doc.Pages))
+	for _, p := range d.Paras {
+		for k, o := range occ[p.ID] {
 			var ls []string
 			for _, t := range o {
 				ls = append(ls, vlib.Runes(t))
@@ -367,8 +381,11 @@ func textDocCases(d *pagedoc.TextDoc, stream string) []vlib.Case {
 			for _, k := range itemKinds(p.Items, map[string]bool{}) {
 				ptags = append(ptags, k)
 			}
+			dg := st.diagnose(p, k)
+			ptags = append(ptags, dg.Tags...)
+			ptags = append(ptags, inlineTriggers(p)...)
 			cases = append(cases, vlib.Case{Kind: "para", Coq: fmt.Sprintf("CPara %s %s", p.Coq(), vlib.List(ls)),
-				Desc:       map[string]interface{}{"html": html, "para": fmt.Sprintf("t%d", p.ID), "occurrence": k, "lines": o},
+				Desc:       map[string]interface{}{"html": html, "para": fmt.Sprintf("t%d", p.ID), "occurrence": k, "lines": o, "structure": dg.Info},
 				Tags:       ptags,
 				Nontrivial: len(o) > 1})
 		}
@@ -469,8 +486,27 @@ func main() {
 	par := flag.Int("par", 16, "worker processes")
 	corpusDir := flag.String("corpus", "../corpus/C02", "regression corpus directory")
 	one := flag.Uint64("seed", 0, "print the text document of this job seed")
+	docFile := flag.String("doc", "", "lay out one text document (corpus JSON) and print the lines of every paragraph with their pages")
 	asJSON := flag.Bool("json", false, "with -seed: print the document as JSON (corpus format)")
 	flag.Parse()
+	if *docFile != "" {
+		b, err := os.ReadFile(*docFile)
+		if err != nil {
+			panic(err)
+		}
+		var d pagedoc.TextDoc
+		if err := json.Unmarshal(b, &d); err != nil {
+			panic(err)
+		}
+		fmt.Println(d.HTML())
+		for _, c := range textDocCases(&d, "single") {
+			if c.Kind == "para" {
+				m := c.Desc.(map[string]interface{})
+				fmt.Printf("%v %q %v %v\n", m["para"], m["lines"], m["structure"], c.Tags)
+			}
+		}
+		return
+	}
 	if *one != 0 {
 		d := pagedoc.GenerateText(vlib.NewRng(*one))
 		if *asJSON {
